@@ -529,6 +529,12 @@ func checkAndExtractFieldType(paths []string, typ reflect.Type) (extracted refle
 		if extracted.Kind() != reflect.Interface {
 			return nil, false, fmt.Errorf("type[%v] has neither field nor map key[%s]", extracted, field)
 		}
+
+		if extracted != reflect.TypeOf((*any)(nil)).Elem() {
+			// the last segment lies below an interface other than 'any': like an intermediate interface,
+			// what is there is only known at request time (and nothing can be instantiated there)
+			return extracted, true, nil
+		}
 	}
 
 	return extracted, false, nil
